@@ -27,7 +27,8 @@ FAMS = ["single:conv@8", "single:dw@8", "single:maxpool@8", "single:avgpool@8", 
         "single:quantize", "single:resize_nearest@8", "single:resize_bilinear@8", "single:tconv@8", "upscale_chain", "conv_chain_big", "weights_heavy", "single:mean@8", "single:transpose_c@8", "pow2_rescale", "single:transpose_c@8", "pow2_rescale", "single:prelu@8", "single:prelu@8", "mixed_exact", "mixed_exact", "mixed_exact",
         "single:conv_dil@8", "single:dw_dil@8", "single:avgpool_s4@8", "single:split@8", "single:mul_max@8", "single:relu_chain@8",
         "single:relu@8", "single:abs@8", "single:minimum@8", "single:maximum@8", "single:conv_head",
-        "single:slice_conv@8", "single:slice_conv@8", "memcpy_reshape"]
+        "single:slice_conv@8", "single:slice_conv@8", "memcpy_reshape",
+        "single:mean_axis@8", "single:pool_big@8", "single:conv_stride_asym@8", "single:squeeze_expand@8"]
 if os.environ.get("VERIF_C01_FAMS"):        # development aid: restrict the generated part to some families
     FAMS = os.environ["VERIF_C01_FAMS"].split(",")
 
@@ -307,7 +308,7 @@ def run(tier):
     res = vlib.Result("C01", tier, "other")
     b = vlib.build_property("C01")
     okx, xlog = vlib.build_extraction("npuExec")
-    n = 200 if tier == "quick" else 1600
+    n = 240 if tier == "quick" else 1800
     max_macs = 1200000 if tier == "quick" else 30000000
     rng = random.Random("c01/%d" % vlib.seed())
     jobs = compiles.corpus_jobs(capture=False) + compiles.plan(FAMS, n, vlib.seed(), tag="c01", capture=False)
